@@ -95,7 +95,7 @@ def rng():
 def abc():
     part = {"cost": 1, "prior": True, "w": "ok", "recomputed": "ok"}
     base = {"N": 2, "maxgen": 2, "maxrank": 6, "mode": "quantile", "events": [
-        {"ev": "Start", "tol": 5}, dict(part, ev="Accept", cost=3), dict(part, ev="Accept", cost=2),
+        {"ev": "Start", "tol": 5, "n": 2}, dict(part, ev="Accept", cost=3), dict(part, ev="Accept", cost=2),
         {"ev": "EndGen", "next": 3}, dict(part, ev="Accept", cost=1), dict(part, ev="Accept", cost=2),
         {"ev": "EndGen", "next": -1},
         {"ev": "Final", "finaltol": 3, "parts": [dict(part, cost=1), dict(part, cost=2)]}]}
@@ -112,6 +112,13 @@ def abc():
     variants.append(("quantile tolerance above every accepted distance (increasing)", v, False))
     v = copy.deepcopy(base); v["events"][7]["parts"][0]["cost"] = 2
     variants.append(("posterior after the call is not the last generation", v, False))
+    # a fresh run on the used object with a population of one: its posterior holds one particle, of that run
+    again = [{"ev": "Restart", "tol": 4, "n": 1}, dict(part, ev="Accept", cost=2), {"ev": "EndGen", "next": -1},
+             {"ev": "Final", "finaltol": 4, "parts": [dict(part, cost=2)]}]
+    v = copy.deepcopy(base); v["events"] += copy.deepcopy(again)
+    variants.append(("unchanged session followed by a fresh smaller run", v, True))
+    v = copy.deepcopy(base); v["events"] += copy.deepcopy(again); v["events"][-1]["parts"].append(dict(part, cost=1))
+    variants.append(("a particle of the earlier run still exposed after the fresh run", v, False))
     cases = []
     for label, tr, want in variants:
         res = _run("TR_Abc", "TR_Abc", tr)
